@@ -213,9 +213,9 @@ func checkMain(repo, verif string, args []string) int {
 	}
 	obls = append(obls, lemObls...)
 
-	to := 10
+	to := 30
 	if tier == "thorough" {
-		to = 60
+		to = 120
 	}
 	if *timeout > 0 {
 		to = *timeout
